@@ -31,9 +31,54 @@ def write_replay(prop, unit_res, failure, root, build, replay_dir):
 
 
 def run_replay(prop, path, root, build):
+    """print the replay file, then re-run its concrete input (a witness / exploration program of
+    /verif/replay, or the native replay of a Kani counterexample) against /repo's CURRENT tree:
+    exit 1 + VIOLATION line if it still fails, exit 0 if it does not (or if the file carries no
+    input: no-failing-input-found)."""
+    import shutil
+    import subprocess
     doc = json.load(open(path))
     print(json.dumps(doc, indent=1)[:6000])
-    return 0
+    ci = doc.get('concrete_input') or {}
+    rr = doc.get('replay_on_real_code') or {}
+    crate = os.path.join(root, 'replay')
+    env = dict(os.environ)
+    env['CARGO_NET_OFFLINE'] = 'true'
+    env['CARGO_TARGET_DIR'] = os.path.join(build, 'replay-target')
+    env['RUSTFLAGS'] = '--cfg isographlabs_isograph_verif'
+    env['RUST_BACKTRACE'] = '0'
+    cmd = None
+    if ci.get('witness_program'):
+        binname = os.path.basename(ci['witness_program'])[:-3]
+        cmd = (binname, [str(a) for a in ci.get('args', [])])
+    elif rr.get('cmd'):
+        parts = rr['cmd'].split()
+        cmd = (os.path.basename(parts[0]), parts[1:])
+    if not cmd:
+        print('replay: this file carries no concrete input (no-failing-input-found); nothing to re-run')
+        return 0
+    shutil.copy('/repo/Cargo.lock', os.path.join(crate, 'Cargo.lock'))
+    b = subprocess.run(['cargo', 'build', '--offline', '--bin', cmd[0]], cwd=crate, env=env, capture_output=True, text=True)
+    if b.returncode != 0:
+        print('replay: the replay crate does not build against the current tree: ' + b.stderr[-800:])
+        return 2
+    os.makedirs(os.path.join(build, 'replay-work'), exist_ok=True)
+    try:
+        p = subprocess.run([os.path.join(env['CARGO_TARGET_DIR'], 'debug', cmd[0])] + cmd[1], capture_output=True, text=True, timeout=1800,
+                           env=env, cwd=os.path.join(build, 'replay-work'))
+    except subprocess.TimeoutExpired:
+        print('replay: timed out')
+        return 2
+    print((p.stdout or '')[-2000:])
+    if p.returncode in (1, 101):
+        print('VIOLATION property=%s replay=%s' % (prop, path))
+        print('replay: REPRODUCED on the current tree (%s %s -> exit %d)' % (cmd[0], ' '.join(cmd[1]), p.returncode))
+        return 1
+    if p.returncode == 0:
+        print('replay: not reproduced on the current tree (%s %s -> exit 0)' % (cmd[0], ' '.join(cmd[1])))
+        return 0
+    print('replay: the program exited %d' % p.returncode)
+    return 2
 
 
 def native_replay(u, h, vals, root, build):
